@@ -70,6 +70,11 @@ def run(ctx):
 
     # ------------------------------------------------------------------ inputs
     inputs = []          # (label, bytes)
+    if ctx.replay:       # bin/check C01 --replay replays/C01-....json : that input only
+        import json
+        rp = json.load(open(ctx.replay))["replay"]
+        if rp.get("source_hex") is not None:
+            return run_inputs(ctx, proved, model, implrun, [("replay", bytes.fromhex(rp["source_hex"]))], None, replaying=True)
     inputs += corpus_inputs()
     inputs += LI.handcrafted()
     files = vclgen.repo_vcl_files(V.REPO)
@@ -84,17 +89,17 @@ def run(ctx):
     else:
         small = [f for f in files if len(f[1]) <= 700]
         rng.shuffle(small)
-        inputs += LI.prefixes(rng, small[:6], small_limit=700, per_large=None)
-        inputs += LI.prefixes(rng, [f for f in files if len(f[1]) > 700], small_limit=0, per_large=14)
+        inputs += LI.prefixes(rng, small[:10], small_limit=700, per_large=None)
+        inputs += LI.prefixes(rng, [f for f in files if len(f[1]) > 700], small_limit=0, per_large=25)
     g = vclgen.Gen(rng)
-    n_gen = 4000 if thorough else 150
+    n_gen = 4000 if thorough else 300
     gens = []
     for i in range(n_gen):
         s = (g.snippet() if rng.random() < 0.5 else g.program()).encode()
         gens.append(("gen", s))
     inputs += gens
     bases = [d for _, d in files if 0 < len(d) < 4000] + [d for _, d in gens]
-    n_mut = 60000 if thorough else 1500
+    n_mut = 60000 if thorough else 3500
     for i in range(n_mut):
         b = rng.choice(bases)
         if rng.random() < 0.5:
@@ -105,7 +110,11 @@ def run(ctx):
             m = m[: rng.randrange(len(m) + 1)]
             kind += "+trunc"
         inputs.append((kind, m))
-    inputs += LI.soup(rng, 20000 if thorough else 700)
+    inputs += LI.soup(rng, 20000 if thorough else 1500)
+    return run_inputs(ctx, proved, model, implrun, inputs, g)
+
+
+def run_inputs(ctx, proved, model, implrun, inputs, g, replaying=False):
     dist = {}
     for lab, _ in inputs:
         k = lab.split(":")[0]
@@ -121,7 +130,7 @@ def run(ctx):
     i_parse = {m: V.run_batch([implrun, "parse"], [m + " " + h for h in hexes], hang_s=2, max_failures=3) for m in MODES}
 
     def replay(lab, d, **kw):
-        r = {"label": lab, "source_hex": d.hex()[:6000], "source": d[:300].decode("utf-8", "replace")}
+        r = {"label": lab, "source_hex": d.hex(), "source": d[:300].decode("utf-8", "replace")}
         r.update({k: (v or "")[:1500] if isinstance(v, str) or v is None else v for k, v in kw.items()})
         return r
 
@@ -190,7 +199,7 @@ def run(ctx):
     # ---- the documented keywords lex to their documented types (focus of the table obligation)
     kw_ok = 0
     idx = {d: k for k, (lab, d) in enumerate(inputs) if lab == "keyword"}
-    for kwd, ty in reference_keywords():
+    for kwd, ty in ([] if replaying else reference_keywords()):
         r = i_lex[idx[kwd.encode()]] or ""
         if "(%s \"%s\" 1 1)" % (ty, kwd.encode().hex()) in r:
             kw_ok += 1
@@ -212,7 +221,7 @@ def run(ctx):
         "token_types_seen": dict(sorted(tok_types.items(), key=lambda kv: -kv[1])),
         "parse_outcomes": outcomes, "parse_error_token_types": dict(sorted(err_types.items(), key=lambda kv: -kv[1])),
         "keywords_checked": kw_ok, "bytes_total": sum(len(d) for _, d in inputs),
-        "generator_stats": dict(sorted(g.stats.items())),
+        "generator_stats": dict(sorted(g.stats.items())) if g else {},
     })
     return ctx.finish(
         level="proof",
